@@ -701,12 +701,16 @@ func (p *pp) printArg(arg interface{}, verb rune) {
 	t := reflect.TypeOf(arg)
 	if safeTypeRegistry[t] {
 		defer p.startSafeOverride().restore()
-	} else if t == safeWrapperType {
-		defer p.startSafeOverride().restore()
-		arg = arg.(w.SafeWrapper).GetValue()
-	} else if t == unsafeWrapperType {
-		defer p.startUnsafeOverride().restore()
-		arg = arg.(w.UnsafeWrap).GetValue()
+	}
+	// Wrappers can be nested; the outermost one decides.
+	for ; t == safeWrapperType || t == unsafeWrapperType; t = reflect.TypeOf(arg) {
+		if t == safeWrapperType {
+			defer p.startSafeOverride().restore()
+			arg = arg.(w.SafeWrapper).GetValue()
+		} else {
+			defer p.startUnsafeOverride().restore()
+			arg = arg.(w.UnsafeWrap).GetValue()
+		}
 	}
 
 	if _, ok := arg.(i.SafeValue); ok {
